@@ -27,7 +27,26 @@ func main() {
 	noEvidence := flag.Bool("no-evidence", false, "write evidence under a temp dir (used by the self-test on mutants)")
 	selftest := flag.String("selftest", "", "JSON summary written by selftest.py, embedded in the evidence (thorough tier)")
 	selftestStatus := flag.Int("selftest-status", 0, "exit status of selftest.py")
+	writeBaseline := flag.String("write-baseline", "", "write the table of top-level functions of -repo to this file and exit (re-pin of the analysis normal form)")
 	flag.Parse()
+
+	if *writeBaseline != "" {
+		repoAbs, _ := filepath.Abs(*repo)
+		prog, err := load.Load(repoAbs, "", false)
+		if err != nil {
+			fmt.Printf("ERROR %v\n", err)
+			os.Exit(2)
+		}
+		out := "# top-level functions of the pinned tree (+ fix commits); see internal/load/norm.go\n"
+		for _, fn := range load.TopLevelSourceFuncs(prog.Prog) {
+			out += fn.String() + "\n"
+		}
+		if err := os.WriteFile(*writeBaseline, []byte(out), 0o644); err != nil {
+			fmt.Printf("ERROR %v\n", err)
+			os.Exit(2)
+		}
+		return
+	}
 
 	if *prop == "list" {
 		var ids []string
@@ -39,6 +58,49 @@ func main() {
 			fmt.Println(id)
 		}
 		return
+	}
+	if *prop == "all" {
+		// development aid: one load, every property, no evidence written to -verif (used by the corpus runners)
+		repoAbs, _ := filepath.Abs(*repo)
+		prog, err := load.Load(repoAbs, "", false)
+		if err != nil {
+			fmt.Printf("ERROR loading %s: %v\n", repoAbs, err)
+			os.Exit(2)
+		}
+		known, err := report.LoadKnown(filepath.Join(*verif, "known_findings.jsonl"))
+		if err != nil {
+			fmt.Printf("ERROR reading known findings: %v\n", err)
+			os.Exit(2)
+		}
+		var ids []string
+		for id := range props.All {
+			ids = append(ids, id)
+		}
+		sort.Strings(ids)
+		worst := 0
+		for _, id := range ids {
+			rc := func() (rc int) {
+				defer func() {
+					if r := recover(); r != nil {
+						fmt.Printf("ERROR checker panic in %s: %v\n%s\n", id, r, debug.Stack())
+						rc = 2
+					}
+				}()
+				pp := props.All[id]
+				c := report.NewCtx(prog, id, "quick", "amd64")
+				c.Analysed("packages", len(prog.SSAPkgs))
+				c.Analysed("repo functions (incl. closures)", len(prog.RepoFns))
+				pp.Run(c)
+				outDir, _ := os.MkdirTemp("", "riecheck-ev")
+				defer os.RemoveAll(outDir)
+				return report.Finish(pp.Spec, "quick", 0, []*report.Result{c.Result()}, known, outDir, time.Now(), map[string]any{})
+			}()
+			fmt.Printf("RESULT %s rc=%d\n", id, rc)
+			if rc > worst {
+				worst = rc
+			}
+		}
+		os.Exit(worst)
 	}
 	p, ok := props.All[*prop]
 	if !ok {
